@@ -11,7 +11,7 @@ G = (GX, GY)
 
 
 def on_curve(x, y):
-    return 0 <= x < P and 0 <= y < P and (y * y - x * x * x - 7) % P == 0
+    return 0 <= x < P and 0 <= y < P and (y * y) % P == (x * x * x + 7) % P
 
 
 def _inv(a, m):
